@@ -221,6 +221,10 @@ pub fn run(args: &[String]) {
     probes.push("<table><caption>cap</caption><thead><tr><th>h</th></tr></thead><tbody><tr><td>c</td></tr></tbody></table>".into());
     probes.push("<ul><li>a</li><li><b>b</b></li></ul><hr><p>x<br>y</p><img src=\"mxc://s/m\" alt=\"a\" title=\"t\" width=\"1\" height=\"2\">".into());
     probes.push("<center><mx-reply><b>q</b></mx-reply>reply</center>".into());
+    // elements that the parser accepts inside a table and that the sanitiser unwraps: their text ends up directly in the table
+    probes.push("<table><tr><td>one </td></tr><script>two</script></table>".into());
+    probes.push("<table><tbody><tr><td>one </td></tr><style>two</style></tbody></table>three".into());
+    probes.push("<table><template><td>x</td></template></table>".into());
     probes.push("<x-foo><x-foo><mx-reply>q</mx-reply></x-foo>r</x-foo>".into());
     for p in &probes {
         for c in CONFIGS {
